@@ -45,6 +45,9 @@ struct St {
     log: Vec<Ev>,
     /// grant order: (actor, verb, path)
     grants: Vec<(u32, V, String)>,
+    /// One fault addressed by (actor, verb, path, occurrence): the same fault under every schedule.
+    fault: Option<(u32, V, String, usize, ErrorKind)>,
+    fault_matches_seen: usize,
 }
 
 pub struct Sched {
@@ -69,10 +72,17 @@ impl Sched {
                 next_id: 0,
                 log: Vec::new(),
                 grants: Vec::new(),
+                fault: None,
+                fault_matches_seen: 0,
             }),
             cv: Condvar::new(),
             woken: w,
         })
+    }
+
+    /// Make the `nth` (0-based) operation `verb path` of `actor` fail with `kind`.
+    pub fn set_fault(&self, actor: u32, verb: V, path: &str, nth: usize, kind: ErrorKind) {
+        self.st.lock().unwrap().fault = Some((actor, verb, path.to_string(), nth, kind));
     }
 
     pub fn transport(self: &Arc<Self>, actor: u32) -> Transport {
@@ -278,6 +288,16 @@ impl Interceptor for Sched {
             result: None,
             injected: false,
         });
+        if let Some((fa, fv, fp, nth, kind)) = st.fault.clone() {
+            if fa == op.actor && fv == verb && fp == op.path {
+                let seen = st.fault_matches_seen;
+                st.fault_matches_seen += 1;
+                if seen == nth {
+                    st.log[idx].injected = true;
+                    return Decision::Fail(kind);
+                }
+            }
+        }
         Decision::Proceed
     }
 
